@@ -67,3 +67,102 @@ pub fn analyse(p: &Pos) -> Analysis {
     };
     Analysis { class, m1, m2, unsafe_moves, safe_exists }
 }
+
+/// Can the side to move force mate within `n` of its own moves?  AND/OR search with a node
+/// budget; `None` = budget exhausted (unknown).
+pub fn can_force_mate(p: &Pos, n: u32, budget: &mut i64) -> Option<bool> {
+    *budget -= 1;
+    if *budget < 0 {
+        return None;
+    }
+    if n == 0 {
+        return Some(false);
+    }
+    let legal = p.legal_moves();
+    let children: Vec<Pos> = legal.iter().map(|&m| p.make(m)).collect();
+    let replies: Vec<Vec<super::oracle::Mv>> = children.iter().map(|c| c.legal_moves()).collect();
+    for (c, r) in children.iter().zip(replies.iter()) {
+        if r.is_empty() && c.in_check(c.wtm) {
+            return Some(true);
+        }
+    }
+    if n == 1 {
+        return Some(false);
+    }
+    for (c, r) in children.iter().zip(replies.iter()) {
+        if r.is_empty() {
+            continue; // stalemate
+        }
+        let mut all = true;
+        for &rm in r {
+            match can_force_mate(&c.make(rm), n - 1, budget) {
+                Some(true) => {}
+                Some(false) => {
+                    all = false;
+                    break;
+                }
+                None => return None,
+            }
+        }
+        if all {
+            return Some(true);
+        }
+    }
+    Some(false)
+}
+
+/// No sequence of legal moves can mate: bare kings, or king + one minor piece v king.
+pub fn dead_position(p: &Pos) -> bool {
+    use super::oracle as o;
+    let mut minors = 0;
+    for &c in p.sq.iter() {
+        match o::pt(c) {
+            0 | o::K => {}
+            o::B | o::N => minors += 1,
+            _ => return false,
+        }
+    }
+    minors <= 1
+}
+
+#[derive(Clone, Copy, Debug, PartialEq, Eq)]
+pub enum Kept {
+    /// mates at once or every reply leaves a mate in one
+    MateInTwo,
+    /// a longer forced mate is proven (within the bound)
+    LongerProven,
+    /// provably no forced mate any more: stalemate, or a reply reaches a dead position
+    Lost,
+    Unknown,
+}
+
+/// After the mover's move `m` at `p` (where a forced mate in two existed): is a forced
+/// mate kept?  Only `Lost` is a proven violation; `Unknown` is inconclusive.
+pub fn keeps_forced_mate(p: &Pos, m: super::oracle::Mv, more_moves: u32, budget: &mut i64) -> Kept {
+    if mates(p, m) || forces_mate_in_2(p, m) {
+        return Kept::MateInTwo;
+    }
+    let q = p.make(m);
+    let replies = q.legal_moves();
+    if replies.is_empty() {
+        return Kept::Lost; // stalemate (mate was handled above)
+    }
+    if replies.iter().any(|&r| dead_position(&q.make(r))) {
+        return Kept::Lost;
+    }
+    let mut all = true;
+    for &r in &replies {
+        match can_force_mate(&q.make(r), more_moves, budget) {
+            Some(true) => {}
+            Some(false) => {
+                all = false;
+            }
+            None => return Kept::Unknown,
+        }
+    }
+    if all {
+        Kept::LongerProven
+    } else {
+        Kept::Unknown
+    }
+}
